@@ -23,7 +23,7 @@ EXPECTED = {
     "t_inplace_alias": "1513246*u", "t_int_arith": "183*u", "t_late_binding": "21*u", "t_lru_cache": "90033*u", "t_mutable_default": "3121*u",
     "t_numpy_dtype": "153*u", "t_or_default": "49*u", "t_precedence": "416*u", "t_shadow_and_scope": "37*u", "t_string_names": "22124435*u",
     "t_truthiness": "7981*u", "t_views": "1100*u", "t_views_containers": "33*u", "t_views_iter_flat": "67*u", "t_views_rows_cols": "208*u",
-    "t_ravel_contiguity": "1132*u", "t_descriptor_calls": "1532*u", "t_numpy_bool": "1101101*u", "t_match_class_patterns": "1230*u",
+    "t_ravel_contiguity": "1132*u", "t_descriptor_calls": "1532*u", "t_numpy_bool": "1101101*u", "t_match_class_patterns": "1230*u", "t_contextmanager": "15105*u",
     "t_star_kwargs": "21*u", "t_lazy_interleave": "51*u", "t_string_ops": "50*u", "t_try_finally": "111*u", "t_walrus_fstring": "3 + 11*u", "t_while_forelse": "13*u",
 }
 
